@@ -31,6 +31,47 @@ fn a(s: &str) -> Alias {
     Alias::new(s)
 }
 
+/// WHERE conditions through the equivalent routes of `ConditionalStatement`, interleaved with calls that
+/// add nothing (an empty `all` group, an absent option) — only when there is a real condition, because a
+/// lone empty `all` renders `WHERE TRUE`.
+fn add_wheres<T: ConditionalStatement>(q: &mut T, ws: &[X]) {
+    let noop = |q: &mut T| {
+        if route(6) == 0 {
+            match route(3) {
+                0 => {
+                    q.cond_where(Condition::all());
+                }
+                1 => {
+                    q.cond_where(Condition::all().add_option(None::<SimpleExpr>));
+                }
+                _ => {
+                    q.and_where_option(None);
+                }
+            }
+        }
+    };
+    if !ws.is_empty() {
+        noop(q);
+    }
+    for w in ws {
+        match route(4) {
+            0 => {
+                q.and_where(w.build());
+            }
+            1 => {
+                q.cond_where(w.build());
+            }
+            2 => {
+                q.and_where_option(Some(w.build()));
+            }
+            _ => {
+                q.cond_where(Condition::all().add(w.build()));
+            }
+        }
+        noop(q);
+    }
+}
+
 fn conj_cond(xs: &[X]) -> Condition {
     let mut c = Condition::all();
     for e in xs {
@@ -301,19 +342,7 @@ pub fn sel(s: &Sel) -> SelectStatement {
             }
         }
     }
-    for w in &s.wheres {
-        match route(3) {
-            0 => {
-                q.and_where(w.build());
-            }
-            1 => {
-                q.cond_where(w.build());
-            }
-            _ => {
-                q.and_where_option(Some(w.build()));
-            }
-        }
-    }
+    add_wheres(&mut q, &s.wheres);
     if route(4) == 0 {
         q.and_where_option(None);
     }
@@ -548,13 +577,7 @@ pub fn upd(s: &Upd) -> UpdateStatement {
     for f in &s.from {
         q.from(table_ref(f));
     }
-    for w in &s.wheres {
-        if route(2) == 0 {
-            q.and_where(w.build());
-        } else {
-            q.cond_where(w.build());
-        }
-    }
+    add_wheres(&mut q, &s.wheres);
     for o in &s.orders {
         add_order(&mut q, o);
     }
@@ -573,13 +596,7 @@ pub fn upd(s: &Upd) -> UpdateStatement {
 pub fn del(s: &Del) -> DeleteStatement {
     let mut q = Query::delete();
     q.from_table(a(&s.table));
-    for w in &s.wheres {
-        if route(2) == 0 {
-            q.and_where(w.build());
-        } else {
-            q.cond_where(w.build());
-        }
-    }
+    add_wheres(&mut q, &s.wheres);
     for o in &s.orders {
         add_order(&mut q, o);
     }
